@@ -265,10 +265,10 @@ theorem target_bounds (f : FloatOps) (hf : FloatOK f) (b : Int) (oldN n : Nat) :
   by_cases h1 : -((-b) / 1000) < 2
   · simp only [h1, if_true]
     by_cases h2 : 2 - (oldN : Int) > ((n : Int) + 9) / 10 <;> simp only [h2, if_true, if_false] <;>
-      refine ⟨?_, ?_, ?_, ?_, fun hn => ?_⟩ <;> omega
+      refine ⟨?_, ?_, ?_, ?_, fun hn => ?_⟩ <;> first | omega | simp
   · simp only [h1, if_false]
     by_cases h2 : -((-b) / 1000) - (oldN : Int) > ((n : Int) + 9) / 10 <;> simp only [h2, if_true, if_false] <;>
-      refine ⟨?_, ?_, ?_, ?_, fun hn => ?_⟩ <;> omega
+      refine ⟨?_, ?_, ?_, ?_, fun hn => ?_⟩ <;> first | omega | simp
 
 /-- whatever is written: pairwise distinct existing CPUs, none reserved / system-exclusive / in the
     LSE pool, and no more than the wanted number. -/
@@ -331,20 +331,20 @@ theorem written_sound (f : FloatOps) (hf : FloatOK f) (b : Int) (oldN : Nat) (pr
     obtain ⟨hw', _⟩ := applyResult_write hw
     subst hw'
     refine ⟨?_, ?_, ?_⟩
-      · refine List.nodup_append.mpr ⟨hAn, hBn, ?_⟩
-        intro x hx y hy e
-        subst e
-        have := (mem_lsrPool (hA x hx)).2.2.2
-        have := (mem_lsPool (hB x hy)).2.2.2.1
-        contradiction
-      · intro x hx
-        rcases List.mem_append.mp hx with h | h
-        · obtain ⟨m1, m2, m3, m4⟩ := mem_lsrPool (hA x h)
-          exact ⟨m1, m2, m3, (by rw [m4]; decide)⟩
-        · obtain ⟨m1, m2, m3, _, m5⟩ := mem_lsPool (hB x h)
-          exact ⟨m1, m2, m3, m5⟩
-      · simp only [List.length_append, Int.natCast_add]
-        omega
+    · refine List.nodup_append.mpr ⟨hAn, hBn, ?_⟩
+      intro x hx y hy e
+      subst e
+      have := (mem_lsrPool (hA x hx)).2.2.2
+      have := (mem_lsPool (hB x hy)).2.2.2.1
+      contradiction
+    · intro x hx
+      rcases List.mem_append.mp hx with h | h
+      · obtain ⟨m1, m2, m3, m4⟩ := mem_lsrPool (hA x h)
+        exact ⟨m1, m2, m3, (by rw [m4]; decide)⟩
+      · obtain ⟨m1, m2, m3, _, m5⟩ := mem_lsPool (hB x h)
+        exact ⟨m1, m2, m3, m5⟩
+    · simp only [List.length_append, Int.natCast_add]
+      omega
 
 /-- enough eligible CPUs ⇒ exactly the wanted number of distinct CPUs is written. -/
 theorem exact_when_enough (f : FloatOps) (hf : FloatOK f) (b : Int) (oldN : Nat) (procs : List Proc) (pods : List PodC)
